@@ -544,7 +544,15 @@ def check_c07(result, ex, clause="error"):
 # =============================================================================================
 
 
-def c10_params():
+def c10_params(rich=False):
+    """rich: at least 3 items, split in the middle, at most one taken by receive() first - a backlog is queued and
+    further items are in flight when setcallback runs"""
+    if rich:
+        return st.fixed_dictionaries(dict(
+            sender=st.sampled_from(["a", "b", "b"]), chan=st.sampled_from(["main", "main", "sub_a", "sub_b"]),
+            items=st.lists(st.integers(0, 9), min_size=3, max_size=5), k_before=st.integers(0, 1), late=st.just(False),
+            end=st.sampled_from(["close", "close", "raise"]), endmarker=st.booleans(), split=st.integers(2, 2),
+            wrap=st.just("bare"))).map(_c10_normalise)
     return st.fixed_dictionaries(dict(
         sender=st.sampled_from(["a", "b", "b"]),
         chan=st.sampled_from(["main", "main", "sub_a", "sub_b"]),
@@ -553,6 +561,7 @@ def c10_params():
         late=st.booleans(),
         end=st.sampled_from(["close", "close", "raise"]),
         endmarker=st.booleans(),
+        split=st.integers(0, 6),
         wrap=st.sampled_from(["bare", "list", "dict"]),
     )).map(_c10_normalise)
 
@@ -571,36 +580,47 @@ def _c10_normalise(p):
 
 
 def c10_conversation(conv, p):
+    """Two-phase stream: the sender sends batch 1, announces it on a separate sync channel (frames are processed in
+    wire order, so once the announcement is received batch 1 is queued on the data channel), waits for the go-ahead
+    and sends batch 2.  The consumer takes k items of batch 1 with receive(), gives the go-ahead and registers the
+    callback at once: a backlog is queued *and* further items are in flight at the moment of setcallback."""
     ch = "main" if p["chan"] == "main" else "sub"
     snd, cons = p["sender"], ("b" if p["sender"] == "a" else "a")
     items = [tag_item(conv, f"{snd}2{cons}", 0, k, pl) for k, pl in enumerate(p["items"])]
+    n1 = min(len(items), max(p["k_before"], p.get("split", len(items) // 2)))
+    batch1, batch2 = items[:n1], items[n1:]
     cbkey = f"{cons}:{conv}:cb"
-    s_ops = [["send", ch, it] for it in items]
+    s_ops = [["send", ch, it] for it in batch1] + [["send", "sync", "b1"], ["recv", "sync", 1]]
+    s_ops += [["send", ch, it] for it in batch2]
     if p["end"] == "close":
         s_ops += [["close", ch]]
     elif p["end"] == "raise":
         s_ops += [["raise", f"boom-{conv}"]]
-    c_ops = [["recv", ch, p["k_before"]]] if p["k_before"] else []
+    c_ops = [["recv", "sync", 1]]
+    if p["k_before"]:
+        c_ops += [["recv", ch, p["k_before"]]]
+    c_ops += [["send", "sync", "go"]]
     if p["late"]:
         c_ops += [["waitclose", ch]]
     c_ops += [["setcallback", ch, cbkey, p["endmarker"], None, "cbdone"]]
     if p["endmarker"]:
         c_ops += [["wait", "cbdone"]]
     c_ops += [["waitclose", ch], ["note", "after"], ["recv", ch, 1, 0.5], ["setcallback", ch, cbkey + "2", False]]
-    a_pre, b_pre = [], []
+    a_pre = [["newchannel", "sync"], ["send_chan", "main", "sync", "bare"]]
+    b_pre = [["recv_chan", "main", "sync"]]
     if p["chan"] == "sub_a":
-        a_pre = [["newchannel", "sub"], ["send_chan", "main", "sub", p["wrap"]]]
-        b_pre = [["recv_chan", "main", "sub"]]
+        a_pre += [["newchannel", "sub"], ["send_chan", "main", "sub", p["wrap"]]]
+        b_pre += [["recv_chan", "main", "sub"]]
     elif p["chan"] == "sub_b":
-        b_pre = [["newchannel", "sub"], ["send_chan", "main", "sub", p["wrap"]]]
-        a_pre = [["recv_chan", "main", "sub"]]
+        b_pre += [["newchannel", "sub"], ["send_chan", "main", "sub", p["wrap"]]]
+        a_pre += [["recv_chan", "main", "sub"]]
     a_body, b_body = (s_ops, c_ops) if snd == "a" else (c_ops, s_ops)
     b_ops = b_pre + b_body
     a_ops = [["remote_exec", "main", b_ops]] + a_pre + a_body
     if ch == "sub":
         a_ops += [["waitclose", "main"]]
     expect = dict(conv=conv, consumer=cons, ch=ch, sent=[fp_of(i) for i in items], k=p["k_before"], cbkey=cbkey,
-                  endmarker=p["endmarker"], end=p["end"], late=p["late"])
+                  endmarker=p["endmarker"], end=p["end"], late=p["late"], backlog=n1 - p["k_before"], in_flight=len(batch2))
     return a_ops, expect
 
 
@@ -640,7 +660,8 @@ def check_c10(result, ex, clause="callback"):
     logs = result[cons] or {}
     where = f"conv {conv} (callback on {cons}, {ex['ch']}, set after {ex['k']} receives{', after the close' if ex['late'] else ''})"
     main = logs.get(f"{cons}:{conv}:main", [])
-    first = [e for e in main if e[0] == "item"][: ex["k"]]
+    sync = (fp_of("b1"), fp_of("go"))
+    first = [e for e in main if e[0] == "item" and e[1] not in sync][: ex["k"]]
     if [e[1] for e in first] != ex["sent"][: ex["k"]]:
         raise Violation(f"{clause}.before", f"{where}: receive() before setcallback gave seqs {_seqs([e[1] for e in first])}")
     sc = [e for e in main if e[0] == "setcallback"]
